@@ -75,6 +75,9 @@ THEOREMS = [
     "Verif.C11.twin_within_bounds",
     "Verif.C11.analytic_lorentzian_exact_of_two_frequencies",
     "Verif.C11.active_recovers_generating_sensitivity",
+    "Verif.C11.calibrate_force_accepts_iff",
+    "Verif.C11.calibrate_force_setup",
+    "Verif.C11.calibrate_force_value_error_first",
 ]
 RULE = (
     "corpus (8 representative + the open finding F-C11-1) + exhaustive option matrix (hydro x axial x distance{None, at the "
@@ -109,7 +112,10 @@ RULE = (
     "incl. peak outside the search range and search range beyond Nyquist x {no, stronger, weaker} second tone inside the "
     "range) exercises the peak search; the raise statements of lk.fit_power_spectrum are run over npts {3,4,5,12} x loss "
     "{gaussian, lorentzian, unknown} x bias correction x {non-empty, empty} analytical range (op c11.fitvalidate); initial values and bounds of the filter parameters for every filter shape x two sample rates (op "
-    "c11.fitbounds)."
+    "c11.fitbounds); the keyword-argument glue of lk.calibrate_force (op c11.calibsetup): on every calibrate_force case "
+    "the filter it ended up with (per diode parameter fitted / fixed at which value / absent, number of fitted parameters), "
+    "and an exhaustive scope of the combinations it has to refuse (active x axial x transferred drag {None, 0, value} x fast "
+    "x fixed diode x hydro x driving data {None, empty, given} x guess {None, 0, negative, positive})."
 )
 TRUSTED = [
     "RealLike formulas are proved over the reals and executed at Float: rounding is not modelled, the comparison "
@@ -358,7 +364,7 @@ def impl(case):
 
 
 def n_ops(case):
-    return {"passive": 1, "psd": 1, "active": 1, "route": 3, "anl": 1, "fit": 4, "drive": 1, "fitval": 1, "bounds": 1, "filter": 1, "calib": 1}[case["op"]]
+    return {"passive": 1, "psd": 1, "active": 1, "route": 3, "anl": 1, "fit": 4, "drive": 1, "fitval": 1, "bounds": 1, "calibval": 1, "filter": 1, "calib": 2}[case["op"]]
 
 
 def _impl(case, k):
@@ -421,6 +427,19 @@ def _impl(case, k):
         return impl_fit(case)
     if k == "calib":
         return impl_calib(case)
+    if k == "calibval":
+        import lumicks.pylake as lk
+
+        o, fixed = case["o"], case.get("fixed")
+        kw = dict(
+            bead_diameter=o["d"], temperature=o["temp"], sample_rate=78125.0, viscosity=o["visc"], hydrodynamically_correct=o["hydro"],
+            rho_sample=o["rho_s"], rho_bead=o["rho_b"], distance_to_surface=o["dist"], fast_sensor=o["fast"], axial=o["axial"],
+            drag=o.get("drag"), fixed_diode=None if fixed is None else fixed[0], fixed_alpha=None if fixed is None else fixed[1],
+            active_calibration=case["active"], driving_frequency_guess=case["guess"],
+            driving_data={"none": None, "empty": np.zeros(0), "ok": np.sin(np.arange(64) * 0.1)}[case["driving"]],
+        )
+        r = lk.calibrate_force(np.zeros(64), **kw)  # every case of this stream has to be refused before the data is touched
+        return [filter_shape(r)]
     if k == "bounds":
         cm = _cm()
         if case["kind"] == "nofilter":
@@ -673,6 +692,8 @@ def impl_calib(c):
         drive = a["amp_um"] * np.sin(2 * np.pi * a["f"] * t + a["phase"]) + 1.3
         volts = volts + a["volts_amp"] * np.sin(2 * np.pi * a["f"] * t + a["phase"] - 0.3)
         kw.update(active_calibration=True, driving_data=drive, driving_frequency_guess=a["guess"])
+        if o.get("drag") is not None:  # only the falsy-drag cases of the matrix: `if drag:` must let 0.0 through
+            kw.update(drag=o["drag"])
     else:
         kw.update(axial=o["axial"], drag=o.get("drag"))
     r = lk.calibrate_force(volts, **kw)
@@ -694,7 +715,26 @@ def impl_calib(c):
     else:
         obs = passive_observables(r.model, o, r)
     _cache[("calib", case_key(c))] = info
-    return [f"ok {branch_of(o)} " + show_floats(obs)]
+    return [f"ok {branch_of(o)} " + show_floats(obs), filter_shape(r)]
+
+
+def filter_shape(r):
+    """public trace of the filter calibrate_force ended up with: per diode parameter fitted (has a standard error) /
+    fixed (reported without one) / absent, and the number of fitted parameters"""
+    st = []
+    for nm in ("f_diode", "alpha"):
+        if "err_" + nm in r.results:
+            st.append("fitted")
+        elif nm in r.params:  # fixed values are reported among the calibration parameters
+            st.append("fixed=" + enc_float(float(r.params[nm].value)))
+        else:
+            st.append("absent")
+    return f"ok {st[0]} {st[1]} {len(r.fitted_params)}"
+
+
+def calibsetup_op(o, fixed, active, driving, guess):
+    fd, al = (None, None) if fixed is None else fixed
+    return f"c11.calibsetup {opt_tokens(o)} {eo(fd)} {eo(al)} {enc_bool(active)} {enc_bool(driving)} {eo(guess)}"
 
 
 def drive_signal(c):
@@ -821,14 +861,19 @@ def ops(case):
         if case.get("a") is None:
             return [
                 f"c11.passive {opt_tokens(o)} {enc_float(info['fc'])} {enc_float(info['D'])} {enc_float(info['efc'])} "
-                f"{enc_float(info['eD'])}"
+                f"{enc_float(info['eD'])}",
+                calibsetup_op(o, fixed, False, False, None),
             ]
         meas = info["meas"]
         return [
             f"c11.active {opt_tokens(o)} {filt_tokens(o, fixed)} {meas_tokens(meas)} "
             f"{enc_float(info['fc'])} {enc_float(info['D'])} {enc_float(info['efc'])} "
-            f"{enc_float(info['eD'])} {fl(info['pars'])}{powers_token(meas)}"
+            f"{enc_float(info['eD'])} {fl(info['pars'])}{powers_token(meas)}",
+            # impl_calib passes neither axial= nor drag= for active calibration
+            calibsetup_op(dict(o, axial=False), fixed, True, True, case["a"]["guess"]),
         ]
+    if k == "calibval":
+        return [calibsetup_op(case["o"], case.get("fixed"), case["active"], case["driving"] == "ok", case["guess"])]
     if k == "bounds":
         kind = case["kind"] if case["kind"] != "fixed" else f"fixed {eo(case['fixed'][0])} {eo(case['fixed'][1])}"
         return [f"c11.fitbounds {kind} {enc_float(case['rate'])}"]
@@ -1385,7 +1430,7 @@ def nontrivial(case, ia):
         return ia[1].startswith("ok")
     if k == "calib":
         return ia[0].startswith("ok") or o_valid(case["o"], case.get("fixed")) is not None
-    if k in ("drive", "fitval", "bounds"):
+    if k in ("drive", "fitval", "bounds", "calibval"):
         return True
     return False
 
@@ -1469,6 +1514,14 @@ def extra_coverage(results):
         "active_cases_with_model_side_peak_search(np.argmax of DrivenPower)": sum(
             1 for r in results if r["ops"] and r["ops"][0].startswith("c11.active") and r["ops"][0].rstrip().endswith("]") and r["ops"][0].count("[") >= 2
         ) if results and "ops" in results[0] else "n/a",
+        "calibrate_force_refusal_scope(impl answers)": {
+            k: sum(1 for r in results if r["case"]["op"] == "calibval" and r["impl"][0] == k)
+            for k in sorted({r["impl"][0] for r in results if r["case"]["op"] == "calibval"})
+        },
+        "calibrate_force_filter_shapes(impl)": {
+            k: sum(1 for r in results if r["case"]["op"] == "calib" and len(r["impl"]) > 1 and " ".join(x.split("=")[0] for x in r["impl"][1].split(" ")) == k)
+            for k in sorted({" ".join(x.split("=")[0] for x in r["impl"][1].split(" ")) for r in results if r["case"]["op"] == "calib" and len(r["impl"]) > 1})
+        },
         "drive_estimator_ties": len(drv),
         "drive_estimator_scope_cases": sum(1 for r in drv if r["case"].get("scope")),
         "drive_estimator_branches(impl)": dict(sorted(dbr.items())),
@@ -1782,6 +1835,10 @@ def calib_matrix(quick):
                 thermal = truth["D"] / (math.pi**2 * (f * f + truth["fc"] ** 2))
                 c["a"] = {"f": f, "amp_um": 0.5, "phase": 1.0, "volts_amp": math.sqrt(2 * (f / 5) * thermal * 1e3), "guess": 36.0}
             yield c
+            if drag is None and not hydro and not axial and dk in (0, 2) and fixed is None and not fast:
+                # a transferred drag of 0.0 is falsy: `if drag:` must treat it like None (passive: not applied; active: not refused)
+                c0 = dict(c, o=dict(o, drag=0.0), subseed=5000 + idx)
+                yield c0
 
 
 def drive_case(rng, stream, quick):
@@ -1802,6 +1859,37 @@ def drive_case(rng, stream, quick):
         "guess": f + rng.uniform(-3.0, 3.0),
         "subseed": rng.randint(0, 2**31),
     }
+
+
+def calib_refusal(o, fixed, active, driving, guess):
+    """which error the documentation of lk.calibrate_force / the constructors promises for these keyword arguments (None:
+    accepted) - used ONLY to select the cases of the refusal scope, never as a verdict"""
+    if active and o["axial"]:
+        return "ValueError"
+    if active and o.get("drag"):
+        return "ValueError"
+    if fixed is not None and o["fast"]:
+        return "ValueError"
+    if active and driving != "ok":
+        return "ValueError"
+    if active and (not guess or guess < 0):
+        return "ValueError"
+    oo = dict(o, axial=False) if active else o
+    return o_valid(oo, fixed)
+
+
+def calibval_scope():
+    """exhaustive small scope of the refusals of lk.calibrate_force (deterministic): every combination of active x axial x
+    transferred drag {None, 0, value} x fast sensor x fixed {none, f_diode, alpha} x hydro x (active only) driving data
+    {None, empty, given} x frequency guess {None, 0, negative, positive} that has to be refused"""
+    for active, axial, drag, fast, fixed, hydro in itertools.product(
+        (False, True), (False, True), (None, 0.0, 3.0e-8), (False, True), (None, [9000.0, None], [None, 0.25]), (False, True)
+    ):
+        o = base_opts(d=1.3, visc=0.001, temp=22.0, hydro=hydro, axial=axial, fast=fast, drag=drag)
+        for driving, guess in itertools.product(("none", "empty", "ok"), (None, 0.0, -2.0, 17.0)) if active else ((("none", None),)):
+            if calib_refusal(o, fixed, active, driving, guess) is None:
+                continue
+            yield {"stream": "scope-calibrate_force-refusals", "op": "calibval", "o": o, "fixed": None if fixed is None else list(fixed), "active": active, "driving": driving, "guess": guess}
 
 
 def fit_scope():
@@ -1966,6 +2054,7 @@ def cases(tier, rng):
             yield {"stream": "scope-fit-bounds", "op": "bounds", "kind": "fixed", "fixed": fixed, "rate": rate}
         for fixed in ([None, 1.5], [0.0, None], [-3.0, 0.5]):
             yield {"stream": "malformed", "op": "bounds", "kind": "fixed", "fixed": fixed, "rate": rate}
+    yield from calibval_scope()
     # ---- argument validation of fit_power_spectrum: exhaustive small scope (deterministic)
     for npts, loss, bias, anl in itertools.product((3, 4, 5, 12), ("gaussian", "lorentzian", "huber"), (False, True), (True, False)):
         yield {"stream": "scope-fit-validation", "op": "fitval", "npts": npts, "loss": loss, "bias": bias, "anl": anl}
